@@ -985,3 +985,6 @@ func Family(fn *ssa.Function, depth int) []*ssa.Function {
 	visit(fn, depth)
 	return out
 }
+
+// ErrorResultState: +1 when the error result of the return is certainly non-nil, -1 when certainly nil, 0 otherwise.
+func ErrorResultState(ret *ssa.Return) int { return errorResultState(ret) }
